@@ -1316,6 +1316,12 @@ class T:
         return self._layout_free("reshape")
 
     def expand(self, *a):
+        if len(a) == 1 and isinstance(a[0], (tuple, list, Shape)):
+            a = tuple(a[0])
+        if not LAYOUT_FREE[0] and self.tlen is None and isinstance(self.eshape, Shape) and len(a) == len(self.eshape.items) + 1:
+            # x.expand(n, *x.shape): one new leading axis of length n along which the tensor is repeated - a time axis
+            v, n = self.f, self.nan
+            return T(lambda t: v, self.dtype, wrap(num(a[0])), "first", self.eshape, (lambda t: n) if n is not None else None)
         return self._layout_free("expand")
 
     def flatten(self, *a):
